@@ -74,6 +74,26 @@ def gen_case(rng, cid, nops, plain_names=False, today=False):
     return c
 
 
+def gen_killed_recorder_race_case(rng, cid, nruns):
+    """C07's variant of the reader/writer race: a long-lived reader (the web server's store) polls while a recorder
+    writes an acknowledged status and is then KILLED (no further write, no compaction: `abandon`) - the acknowledged
+    status must be what every later query returns"""
+    dags = ["k%d.yaml" % cid]
+    t0 = BASE + rng.randrange(DAY)
+    ops, reqs = [], []
+    for k in range(nruns):
+        req = "%08x-k%d" % (rng.randrange(1 << 32), k)
+        reqs.append(req)
+        ops.append({"op": "open", "k": k, "d": 0, "t": t0 + 5000 * k, "req": req, "noq": True})
+        ops.append({"op": "write", "k": k, "req": req, "p": "w%d" % k, "st": 1, "big": 0, "noq": True})
+        ops.append({"op": "write", "k": k, "req": req, "p": "x%d" % k, "st": 4, "big": 0, "spawn": 4, "delayUs": rng.choice([20, 40, 60, 90, 130, 180]),
+                    "burst": ["b%d.%d" % (k, j) for j in range(rng.randint(0, 1))], "noq": True})
+        ops.append({"op": "abandon", "k": k})            # the recorder is killed right after the acknowledged write
+        if k % 2 == 1:
+            ops.append({"op": "removeAll", "d": 0})
+    return {"id": "krace%d" % cid, "dags": dags, "ops": ops, "today": False, "reqs": reqs[-3:], "ns": [1, 2]}
+
+
 def gen_race_case(rng, cid, nruns):
     """readers against writers: background readers keep asking the long-lived store for the recent and the latest
     status (the web server does) while short runs are recorded and edited back to back: open, write, close and a manual
